@@ -15,6 +15,7 @@ type Val struct {
 	Addr *Addr      // non-nil: an address (pointer to a cell/field/element), T unused
 	Tup  []Val      // tuple
 	Clo  *Closure   // statically known function value
+	SRef string     // struct value that lives in memory: the (pseudo-)reference of its fields
 }
 
 // Addr is a pointer to something that is not a whole allocated struct.
